@@ -15,10 +15,16 @@
                                                                  event = (0 x value) store | (1 i value) for target | (2 value) return
    (12 ctx (items) fname (label ...)) -> (guard parsed)           fn_guard for the body of fname under call signature sg, in the
                                                                  parser state after the items; parsed = the variant parses
-   (13 block (n ...) env)     -> (0 (event ...) returned) | (1 code)    exec_block of a function body from the given environment *)
+   (13 block (n ...) env)     -> (0 (event ...) returned) | (1 code)    exec_block of a function body from the given environment
+   (14 (decl ...) (decl ...) site fname (arg ...)) -> ((psig ...) picked)   C++ name lookup + overload resolution (Lang/FnProto.v):
+                                                                 prototypes, definitions in emission order; decl = (name (ctype ...));
+                                                                 site = (0 i) body of the i-th definition | (1) setup/loop;
+                                                                 arg = ctype | (7) a C++ double; picked = () | ((ctype ...))
+   (15 (decl ...))            -> (decl ...)                      the prototype block emit() writes in front of these definitions
+   (16 ctx (items) fname (label ...)) -> (parsed guard meant emitted)   call_guard in the parser state after the items *)
 From Coq Require Import ZArith List Bool.
 From RV Require Import Base.Wire Base.Text Lang.PyAst Lang.PySem Lang.PyAstWire
-  Lang.Infer Lang.InferWire Lang.InferGuard Lang.InferComp Lang.Decl Lang.DeclWire Lang.FnSpec Lang.StmtRef.
+  Lang.Infer Lang.InferWire Lang.InferGuard Lang.InferComp Lang.Decl Lang.DeclWire Lang.FnSpec Lang.StmtRef Lang.FnProto.
 Import ListNotations.
 Open Scope Z_scope.
 
@@ -44,6 +50,40 @@ Definition enc_xout (r : res xout) : wv :=
   | Ok (_, _, tr, b) => wok [WL (map enc_tev tr); wbool b]
   | Err e => werr (perr_code e)
   end.
+
+Fixpoint dec_ctys (l : list wv) : option (list cty) :=
+  match l with
+  | [] => Some []
+  | x :: r => match dec_cty x, dec_ctys r with Some c, Some cs => Some (c :: cs) | _, _ => None end
+  end.
+Definition dec_cdecl (v : wv) : option cdecl :=
+  match v with
+  | WL [n; WL ps] => match un_text n, dec_ctys ps with Some nm, Some cs => Some (nm, cs) | _, _ => None end
+  | _ => None
+  end.
+Fixpoint dec_cdecls (l : list wv) : option (list cdecl) :=
+  match l with
+  | [] => Some []
+  | x :: r => match dec_cdecl x, dec_cdecls r with Some d, Some ds => Some (d :: ds) | _, _ => None end
+  end.
+Definition dec_aty (v : wv) : option aty :=
+  match v with
+  | WL [WI 7] => Some ADouble
+  | _ => match dec_cty v with Some c => Some (AT c) | None => None end
+  end.
+Fixpoint dec_atys (l : list wv) : option (list aty) :=
+  match l with
+  | [] => Some []
+  | x :: r => match dec_aty x, dec_atys r with Some a, Some l1 => Some (a :: l1) | _, _ => None end
+  end.
+Definition dec_site (v : wv) : option site :=
+  match v with
+  | WL [WI 0; WI i] => Some (InBody (Z.to_nat i))
+  | WL [WI 1] => Some InMain
+  | _ => None
+  end.
+Definition enc_psig (p : psig) : wv := WL (map enc_cty p).
+Definition enc_cdecl (d : cdecl) : wv := WL [wtext (fst d); enc_psig (snd d)].
 
 Definition run (v : wv) : wv :=
   match v with
@@ -130,6 +170,31 @@ Definition run (v : wv) : wv :=
       match dec_block body, dec_nats orc, dec_env en with
       | Some b, Some o, Some rho => enc_xout (exec_block o rho b)
       | _, _, _ => wbad
+      end
+  | WL [WI 14; WL pr; WL df; st; f; WL ar] =>
+      match dec_cdecls pr, dec_cdecls df, dec_site st, un_text f, dec_atys ar with
+      | Some protos, Some defs, Some s, Some name, Some args =>
+          let sk := mk_sketch protos defs in
+          WL [WL (map enc_psig (candidates sk s name));
+              match cxx_resolve sk s name args with Some p => WL [enc_psig p] | None => WL [] end]
+      | _, _, _, _, _ => wbad
+      end
+  | WL [WI 15; WL df] =>
+      match dec_cdecls df with
+      | Some defs => WL (map enc_cdecl (sk_protos (emit_sketch defs)))
+      | None => wbad
+      end
+  | WL [WI 16; c; WL its; f; WL sg] =>
+      match dec_ictx c, dec_items its, un_text f, dec_tys sg with
+      | Some C, Some items, Some name, Some sig =>
+          match run_items C items with
+          | None => WL [wbool false; wbool false; WL []; WL []]
+          | Some ps =>
+              WL [wbool true; wbool (call_guard (p_fe ps) name sig);
+                  match meant_variant (p_fe ps) name sig with Some d => WL [enc_psig (params_of d)] | None => WL [] end;
+                  WL (map enc_cdecl (emitted_decls (p_fe ps)))]
+          end
+      | _, _, _, _ => wbad
       end
   | WL [WI 8; WL []] => enc_ty (annotation_label None)
   | WL [WI 8; WL [n]] => match un_text n with Some nn => enc_ty (annotation_label (Some nn)) | None => wbad end
